@@ -1,3 +1,105 @@
-import Rustemo.Model.LR
+import Rustemo.Proofs.LexFilters
+/-!
+# C06 — lexical ambiguity is resolved in the documented order of strategies
+
+`Lex.iter` is the `TokenIterator` (lexer.rs), `Lex.withFlags` the finish flags and `Lex.key` the sort
+key of `sort_terminals` (table/mod.rs), `lrPick` / `glrKeep` the filters of `LRParser::next_token` and
+`GlrParser::find_lookaheads`; `m` is an ARBITRARY matching function (which expected terminals match at
+the current position, and how long), so the theorems cover every terminal set, every input and every
+combination of the switches at once.  The sorted list is certified per state of the real table by
+the executable `Lex.sortedOk` (sorted by key, ties in grammar order, flags as computed by
+`withFlags`, string recognizers 1..999 bytes — the bound the sort key `prio*1000+len` forces).
+
+PARTIAL: the last strategy, grammar order (LR takes the first of the remaining tokens; that the first
+one is the earliest in the grammar), is decided by oracle + correspondence only.
+-/
 namespace Rustemo.Props.C06
+open Rustemo.Lex
+
+/-- **Priority, then most specific.**  The iterator yields a terminal iff it matches, no matching
+    terminal has a higher priority and — with most-specific on — it is the longest matching string
+    recognizer of that priority (first in grammar order among equally long ones) if a string of that
+    priority matches at all, and a regex only if none does. -/
+theorem C06_iterator_yields_survivors (ms : Bool) (m : Nat → Option Nat) (S : List TermDesc)
+    (hs : sortedB ms S = true) (hw : S.all wftB = true) (t : TermDesc) (l : Nat) :
+    (t, l) ∈ iter m false (withFlags ms S) ↔ (Survives ms m S t ∧ m t.idx = some l) :=
+  iter_survivors ms m S (sortedB_sound ms S hs)
+    (fun u hu => wftB_sound u (List.all_eq_true.mp hw u hu)) t l
+
+/-- **Then longest match (LR).**  The token the LR parser acts on is a survivor, of maximal length
+    among the survivors if longest-match is on; no token is found iff nothing survives. -/
+theorem C06_lr_acts_on (ms longest : Bool) (m : Nat → Option Nat) (S : List TermDesc)
+    (hs : sortedB ms S = true) (hw : S.all wftB = true) :
+    (∀ t l, lrPick longest (iter m false (withFlags ms S)) = some (t, l) →
+        Survives ms m S t ∧ m t.idx = some l ∧
+        (longest = true → ∀ u lu, Survives ms m S u → m u.idx = some lu → lu ≤ l)) ∧
+    (lrPick longest (iter m false (withFlags ms S)) = none ↔ ∀ u, ¬ Survives ms m S u) := by
+  obtain ⟨h1, h2⟩ := lrPick_spec longest (iter m false (withFlags ms S))
+  have hiff := C06_iterator_yields_survivors ms m S hs hw
+  constructor
+  · intro t l h
+    obtain ⟨hin, hmax⟩ := h1 (t, l) h
+    obtain ⟨hsv, hm⟩ := (hiff t l).mp hin
+    refine ⟨hsv, hm, fun hl u lu hsu hmu => ?_⟩
+    exact hmax hl (u, lu) ((hiff u lu).mpr ⟨hsu, hmu⟩)
+  · rw [h2]
+    constructor
+    · intro hnil u hsu
+      have hmu : ∃ lu, m u.idx = some lu := by
+        have := hsu.1.2.1
+        unfold Matches at this
+        exact Option.isSome_iff_exists.mp this
+      obtain ⟨lu, hmu⟩ := hmu
+      have := (hiff u lu).mpr ⟨hsu, hmu⟩
+      rw [hnil] at this
+      simp at this
+    · intro hno
+      cases hit : iter m false (withFlags ms S) with
+      | nil => rfl
+      | cons x xs =>
+        exfalso
+        have : (x.1, x.2) ∈ iter m false (withFlags ms S) := by rw [hit]; simp
+        exact hno x.1 ((hiff x.1 x.2).mp this).1
+
+/-- **GLR with grammar order off keeps every survivor** (of maximal length if longest-match is on);
+    each kept token becomes a head of the frontier. -/
+theorem C06_glr_keeps (ms longest : Bool) (m : Nat → Option Nat) (S : List TermDesc)
+    (hs : sortedB ms S = true) (hw : S.all wftB = true) (t : TermDesc) (l : Nat) :
+    (t, l) ∈ glrKeep longest false (iter m false (withFlags ms S)) ↔
+      (Survives ms m S t ∧ m t.idx = some l ∧
+       (longest = true → ∀ u lu, Survives ms m S u → m u.idx = some lu → lu ≤ l)) := by
+  have hiff := C06_iterator_yields_survivors ms m S hs hw
+  rw [glrKeep_spec]
+  constructor
+  · rintro ⟨hin, hmax⟩
+    obtain ⟨hsv, hm⟩ := (hiff t l).mp hin
+    exact ⟨hsv, hm, fun hl u lu hsu hmu => hmax hl (u, lu) ((hiff u lu).mpr ⟨hsu, hmu⟩)⟩
+  · rintro ⟨hsv, hm, hmax⟩
+    refine ⟨(hiff t l).mpr ⟨hsv, hm⟩, fun hl u hu => ?_⟩
+    obtain ⟨hsu, hmu⟩ := (hiff u.1 u.2).mp hu
+    exact hmax hl u.1 u.2 hsu hmu
+
+/-- with grammar order on, GLR keeps at most one of them -/
+theorem C06_glr_grammar_order (longest : Bool) (toks : List (TermDesc × Nat)) (t : TermDesc × Nat)
+    (h : t ∈ glrKeep longest true toks) :
+    t ∈ glrKeep longest false toks ∧ (glrKeep longest true toks).length ≤ 1 :=
+  glrKeep_order_spec longest toks t h
+
+/-- the iterator of the byte-level LR model (the one the correspondence check runs against the real
+    parser) is `iter` with the recognizers as matching function -/
+theorem C06_model_iterator_is_iter (env : Rustemo.Env) (pos : Rustemo.Pos) (L : List (TermDesc × Bool)) :
+    (Rustemo.tokenIter env pos (L.map fun (t, f) => (t.idx, f))).map (fun tk => (tk.kind, tk.val.2)) =
+    (iter (fun k => env.recog k pos.pos) false L).map (fun (t, l) => (t.idx, l)) :=
+  tokenIterAux_eq_iter env pos L false
+
+/-- non-vacuity: a three-terminal state (string `if` prio 10, regex prio 10, regex prio 5), most
+    specific on; and the 1000-byte bound is tight: see `C06_counterexample_long_string` -/
+example : sortedB true [⟨1, 10, some 2⟩, ⟨2, 10, none⟩, ⟨3, 5, none⟩] = true ∧
+    [⟨1, 10, some 2⟩, ⟨2, 10, none⟩, (⟨3, 5, none⟩ : TermDesc)].all wftB = true := by decide
+
+/-- why the length bound is needed: a string recognizer of 1000 bytes with priority 9 sorts before
+    a regex of priority 10 (key 9*1000+1000 = 10*1000+0, tie broken by grammar order) -/
+theorem C06_counterexample_long_string :
+    sortedB true [⟨1, 9, some 1000⟩, ⟨2, 10, none⟩] = true ∧ wftB ⟨1, 9, some 1000⟩ = false := by decide
+
 end Rustemo.Props.C06
